@@ -43,6 +43,7 @@ namespace Dos.Handlers
 @[simp] theorem all_ridLen : Cfg.all.ridLen = true := rfl
 @[simp] theorem all_readSize : Cfg.all.readSize = true := rfl
 @[simp] theorem all_mdNil : Cfg.all.mdNil = true := rfl
+@[simp] theorem all_dispReplyNil : Cfg.all.dispReplyNil = true := rfl
 @[simp] theorem all_listenName : Cfg.all.listenName = true := rfl
 @[simp] theorem all_listenCast : Cfg.all.listenCast = true := rfl
 @[simp] theorem all_lookupName : Cfg.all.lookupName = true := rfl
@@ -101,6 +102,100 @@ theorem receiveID_total (w : Wire) : (receiveID Cfg.all w).isPanic = false := by
       cases pub <;> simp
       all_goals (split <;> simp)
     · simp
+
+/-! client.dispatch -/
+theorem dispStep_total (s : DispSt) (e : DispEv) (ha : s.alive = true) :
+    (dispStep Cfg.all s e).1.alive = true ∧ (dispStep Cfg.all s e).2.isPanic = false := by
+  cases e with
+  | send => simp [dispStep, ha]
+  | cancel k => simp [dispStep, ha]
+  | reply k =>
+    simp only [dispStep, ha, all_dispReplyNil]
+    cases h : dispLookup k s.pending with
+    | none => simp [ha]
+    | some c => cases c <;> simp
+
+theorem dispRun_total (evs : List DispEv) : ∀ s, s.alive = true →
+    (dispRun Cfg.all s evs).1.alive = true ∧ ∀ o ∈ (dispRun Cfg.all s evs).2, o.isPanic = false := by
+  induction evs with
+  | nil => intro s ha; exact ⟨ha, by simp [dispRun]⟩
+  | cons e r ih =>
+    intro s ha
+    simp only [dispRun]
+    have st := dispStep_total s e ha
+    have := ih _ st.1
+    refine ⟨this.1, fun o h => ?_⟩
+    rcases List.mem_cons.mp h with h | h
+    · subst h; exact st.2
+    · exact this.2 o h
+
+theorem dispRun_append (es : List DispEv) : ∀ (s : DispSt) (tl : List DispEv),
+    (dispRun Cfg.all s (es ++ tl)).2 = (dispRun Cfg.all s es).2 ++ (dispRun Cfg.all (dispRun Cfg.all s es).1 tl).2 := by
+  induction es with
+  | nil => intro s tl; simp [dispRun]
+  | cons e r ih => intro s tl; simp [dispRun, ih]
+
+/-- nonces in the table are below the counter, so the next request's nonce is fresh -/
+theorem dispStep_lt (s : DispSt) (e : DispEv) (h : ∀ p ∈ s.pending, p.1 < s.next) :
+    ∀ p ∈ (dispStep Cfg.all s e).1.pending, p.1 < (dispStep Cfg.all s e).1.next := by
+  by_cases ha : s.alive = true
+  · cases e with
+    | send =>
+      have e1 : (dispStep Cfg.all s .send).1 = { s with pending := (s.next, false) :: s.pending, next := s.next + 1 } := by
+        simp [dispStep, ha]
+      rw [e1]; intro p hp
+      rcases List.mem_cons.mp hp with hp | hp
+      · subst hp; exact Nat.lt_succ_self _
+      · exact Nat.lt_succ_of_lt (h p hp)
+    | cancel k =>
+      have e1 : (dispStep Cfg.all s (.cancel k)).1 = { s with pending := s.pending.map (fun e => if e.1 = k then (e.1, true) else e) } := by
+        simp [dispStep, ha]
+      rw [e1]; intro p hp
+      obtain ⟨q, hq, rfl⟩ := List.mem_map.mp hp
+      have := h q hq
+      show (if q.1 = k then (q.1, true) else q).1 < s.next
+      split <;> exact this
+    | reply k =>
+      cases hl : dispLookup k s.pending with
+      | none =>
+        have e1 : (dispStep Cfg.all s (.reply k)).1 = s := by simp [dispStep, ha, hl]
+        rw [e1]; exact h
+      | some c =>
+        have e1 : (dispStep Cfg.all s (.reply k)).1 = { s with pending := s.pending.filter (fun e => e.1 != k) } := by
+          simp [dispStep, ha, hl]
+        rw [e1]; intro p hp; exact h p (List.mem_filter.mp hp).1
+  · have e1 : (dispStep Cfg.all s e).1 = s := by cases e <;> simp [dispStep, ha]
+    rw [e1]; exact h
+
+theorem dispRun_lt (evs : List DispEv) : ∀ s, (∀ p ∈ s.pending, p.1 < s.next) →
+    ∀ p ∈ (dispRun Cfg.all s evs).1.pending, p.1 < (dispRun Cfg.all s evs).1.next := by
+  induction evs with
+  | nil => intro s h; simpa [dispRun] using h
+  | cons e r ih => intro s h; simp only [dispRun]; exact ih _ (dispStep_lt s e h)
+
+theorem dispLookup_fresh (l : List (Nat × Bool)) (k : Nat) (h : ∀ p ∈ l, p.1 < k) : dispLookup k l = none := by
+  induction l with
+  | nil => rfl
+  | cons x r ih =>
+    obtain ⟨a, b⟩ := x
+    have hx := h (a, b) (by simp)
+    simp only [dispLookup]
+    have : ¬ a = k := by simp at hx; omega
+    simp only [this, if_false]
+    exact ih (fun p hp => h p (by simp [hp]))
+
+/-- keeps serving: after any history of replies (duplicate, never issued, late, …) the next request
+is matched by the reply that carries its nonce -/
+theorem disp_serves (evs : List DispEv) :
+    ∃ k, (dispRun Cfg.all {} (evs ++ [.send, .reply k])).2.getLast? = some (.ok "matched") := by
+  have ha := (dispRun_total evs {} rfl).1
+  have hlt := dispRun_lt evs {} (by simp)
+  refine ⟨(dispRun Cfg.all {} evs).1.next, ?_⟩
+  rw [dispRun_append]
+  have : (dispRun Cfg.all (dispRun Cfg.all {} evs).1 [.send, .reply (dispRun Cfg.all {} evs).1.next]).2
+      = [.ok s!"sent {(dispRun Cfg.all {} evs).1.next}", .ok "matched"] := by
+    simp [dispRun, dispStep, ha, dispLookup]
+  rw [this]; simp
 
 theorem listenMembers_total (ls : List Nat) : ∀ k o, listenMembers Cfg.all ls k = .error o → o.isPanic = false := by
   induction ls with
